@@ -171,6 +171,10 @@ def lagrange(
     if window > len(x):
         raise ValueError(f"x and y arrays must have at least window={window} entries")
 
+    # Differences of unsigned integers wrap around (np.diff of an unsorted unsigned array is all positive)
+    if x.dtype.kind == "u":
+        x = x.astype(float)
+
     # Sort the input according to the x-array
     if not assume_sorted:
         sort_idxs = np.argsort(x)
